@@ -37,6 +37,7 @@ import (
 	"github.com/megaease/easegress/pkg/resilience"
 	"github.com/megaease/easegress/pkg/supervisor"
 	"github.com/megaease/easegress/pkg/tracing"
+	libcb "github.com/megaease/easegress/pkg/util/circuitbreaker"
 	"github.com/megaease/easegress/pkg/util/jsontool"
 	"github.com/megaease/easegress/pkg/util/signer"
 	"github.com/megaease/easegress/pkg/util/yamltool"
@@ -433,6 +434,9 @@ func DefaultReqs(g *Gen, kind string, doc interface{}) []Req {
 	if kind == "Proxy" || kind == "Pipeline" || kind == "GlobalFilter" {
 		reqs = append(reqs, ProxyReqs()...)
 	}
+	if hasAuthSection(doc) {
+		reqs = append(reqs, AuthReqs(doc)...)
+	}
 	if findSignature(doc) != nil {
 		// syntactically complete, correctly signed requests: verification runs to the end
 		reqs = append(reqs, Req{Method: "GET", Path: "/signed?x=1", Resp: 0, Sign: true},
@@ -592,6 +596,67 @@ func NewContext(rq Req) *context.Context {
 		return NewMQTTContext(rq)
 	}
 	return NewHTTPContext(rq)
+}
+
+// hasAuthSection: the document (or a filter nested in it) validates credentials.
+func hasAuthSection(x interface{}) bool {
+	switch v := x.(type) {
+	case []interface{}:
+		for _, e := range v {
+			if hasAuthSection(e) {
+				return true
+			}
+		}
+	case map[string]interface{}:
+		for k, e := range v {
+			switch k {
+			case "jwt", "basicAuth", "oauth2", "signature":
+				return true
+			}
+			if hasAuthSection(e) {
+				return true
+			}
+		}
+	}
+	return false
+}
+
+// AuthReqs: edge values of the Authorization header (what net/http delivers for "Bearer " + empty
+// token is the bare scheme name) and of the configured token cookies.
+func AuthReqs(doc interface{}) []Req {
+	var out []Req
+	for _, a := range []string{"Bearer", "bearer", "BEARER", "Bearer ", "Bearer  ", "bearer x", "Bearer x", "Bearer a.b.c", "Beare",
+		"Basic", "basic", "Basic ", "Basic !!!", "Basic Og==", "Basic YTpi", "Basic YQ==", "Digest x", " ", "B"} {
+		out = append(out, Req{Method: "GET", Path: "/auth", Headers: [][2]string{{"Authorization", a}}})
+	}
+	out = append(out, Req{Method: "GET", Path: "/auth"})
+	seen := map[string]bool{}
+	var walk func(x interface{})
+	walk = func(x interface{}) {
+		switch v := x.(type) {
+		case []interface{}:
+			for _, e := range v {
+				walk(e)
+			}
+		case map[string]interface{}:
+			if n, ok := v["cookieName"].(string); ok && n != "" && !seen[n] && !strings.ContainsAny(n, " ;=\n") {
+				seen[n] = true
+				out = append(out, Req{Method: "GET", Path: "/auth", Headers: [][2]string{{"Cookie", n + "="}, {"Authorization", "Bearer"}}},
+					Req{Method: "GET", Path: "/auth", Headers: [][2]string{{"Cookie", n + "=x"}}},
+					Req{Method: "GET", Path: "/auth", Headers: [][2]string{{"Cookie", n}}})
+			}
+			ks := make([]string, 0, len(v))
+			for k := range v {
+				ks = append(ks, k)
+			}
+			sort.Strings(ks)
+			for _, k := range ks {
+				walk(v[k])
+			}
+		}
+	}
+	walk(doc)
+	return out
 }
 
 // findSignature looks for a signer configuration in a decoded document: the
@@ -1012,16 +1077,24 @@ func ObserveResilience(in *In, inst bool) *Obs {
 func RunPolicy(pol resilience.Policy, obs *Obs) {
 	obs.Inst = "ok"
 	var w resilience.Wrapper
+	// virtual clock of the circuit breaker: the scripted history below moves it past
+	// waitDurationInOpenState instead of waiting
+	now := time.Date(2022, 1, 2, 3, 4, 5, 0, time.UTC)
+	libcb.VerifC13SetNow(func() time.Time { return now })
+	defer libcb.VerifC13SetNow(nil)
 	if !Stage(obs, "init", "CreateWrapper", func() { w = pol.CreateWrapper() }) {
 		return
 	}
 	failing := errors.New("verif: failing call")
-	script := []bool{true, false, false, true, false, false, false, true}
-	for i, okCall := range script {
-		okCall := okCall
+	n := 0
+	call := func(okCall, cancelled bool) bool {
+		n++
 		ctx, cancel := stdcontext.WithCancel(stdcontext.Background())
-		cancel()
-		if !Stage(obs, "handle", fmt.Sprintf("Wrap#%d", i), func() {
+		defer cancel()
+		if cancelled {
+			cancel()
+		}
+		return Stage(obs, "handle", fmt.Sprintf("Wrap#%d", n), func() {
 			h := w.Wrap(func(stdcontext.Context) error {
 				if okCall {
 					return nil
@@ -1029,8 +1102,71 @@ func RunPolicy(pol resilience.Policy, obs *Obs) {
 				return failing
 			})
 			h(ctx)
-		}) {
+		})
+	}
+	// Retry (and any policy): successes and failures; waiting between attempts is cut short by a
+	// cancelled context (the wait itself is not part of the property)
+	for _, okCall := range []bool{true, false, false, true, false, false, false, true} {
+		if !call(okCall, true) {
 			return
+		}
+	}
+	switch p := pol.(type) {
+	case *resilience.RetryPolicy:
+		// short waits are really waited for: all attempts and the back-off arithmetic run
+		if d, err := time.ParseDuration(p.WaitDuration); err == nil && d > 0 && d <= 2*time.Millisecond && p.MaxAttempts <= 4 {
+			call(false, false)
+			call(true, false)
+		}
+	case *resilience.CircuitBreakerPolicy:
+		// a scripted history that walks closed -> open -> half-open -> closed -> open -> half-open -> open
+		clamp := func(x uint32) int {
+			if x > 120 {
+				return 120
+			}
+			return int(x)
+		}
+		wait := time.Minute
+		if d, err := time.ParseDuration(p.WaitDurationInOpen); err == nil && p.WaitDurationInOpen != "" {
+			wait = d
+		}
+		maxHalf, _ := time.ParseDuration(p.MaxWaitDurationInHalfOpen)
+		fill := clamp(p.SlidingWindowSize)
+		if m := clamp(p.MinimumNumberOfCalls); m > fill {
+			fill = m
+		}
+		probe := clamp(p.PermittedNumberOfCallsInHalfOpen) + 2
+		burst := func(k int, okCall bool) bool {
+			for i := 0; i < k; i++ {
+				if !call(okCall, false) {
+					return false
+				}
+			}
+			return true
+		}
+		steps := []func() bool{
+			func() bool { return burst(fill+2, false) },            // closed -> open
+			func() bool { return burst(2, true) },                   // rejected while open
+			func() bool { now = now.Add(wait); return burst(1, true) }, // exactly at the end of the wait
+			func() bool { now = now.Add(time.Nanosecond); return burst(probe, true) }, // half-open probes succeed -> closed
+			func() bool { return burst(fill+2, false) },            // -> open again
+			func() bool { now = now.Add(wait + time.Nanosecond); return burst(probe, false) }, // half-open probes fail -> open
+			func() bool { now = now.Add(wait + maxHalf + time.Second); return burst(1, true) },
+			func() bool { now = now.Add(maxHalf + time.Second); return burst(probe, true) },
+			func() bool { // mixed traffic, time passing (time based windows roll over)
+				for i := 0; i < 40; i++ {
+					now = now.Add(700 * time.Millisecond)
+					if !call(i%3 != 0, false) {
+						return false
+					}
+				}
+				return true
+			},
+		}
+		for _, st := range steps {
+			if !st() {
+				return
+			}
 		}
 	}
 }
